@@ -92,7 +92,7 @@ Theorem C07_tags_consumed_shipped : forall lines l0 t m (a : usertags),
   wf_elements16 t (elements_of_model m) = true ->
   generate_file m dict0 a lines = Some (ref16 (elements_of_model m) t)
   /\ forallb no_generator_tag (flat_map (ref_item16 (elements_of_model m)) t) = true.
-Proof. intros lines l0 t m a Hs Hw. exact (shipped_output lines l0 t Hs m a Hw). Qed.
+Proof. exact shipped_output_flat. Qed.
 Print Assumptions C07_tags_consumed_shipped.
 
 Definition cd_rows : list EngineSM.row :=
